@@ -12,7 +12,7 @@ CHECKS = {
     design="§2 C01"),
  "C02": dict(
     technique="property-based testing: grammar-generated fn/mod/impl inputs through the in-process macro, exact token-prefix oracle, proptest shrinking",
-    engine="E1",
+    engine="E1+E2",
     text="Generated-input search (60k quick / 1M thorough cases per run) with an exact two-directional token oracle: the annotated fn must be the literal prefix of the expansion, module items the literal prefix of the emitted module body, impl-block items the literal body of the emitted inherent impl. Exploration, not proof: it establishes the property on every generated program and shrinks any counterexample to a replay file.",
     note="Trusts proc_macro2's fallback lexer/printer to agree with rustc's (cross-checked by the E2 recorder leg) and that the mechanical port of lib.rs (engine/port/build.rs) follows the working tree; inputs that the macro rejects are outside the quantifier.",
     design="§2 C02"),
@@ -90,9 +90,9 @@ CHECKS = {
     design="§2 C07"),
  "C08": dict(
     technique="property-based testing: generated modules with decoy items, generator-side ground truth for the method list, syn-parsed trait of the expansion as observation",
-    engine="E1",
+    engine="E1+E2",
     text="Generated modules (0..8 items: visible fns with every qualifier/visibility spelling, private fns, body-less declarations, decoys containing `fn` tokens) with the expected method list computed from the generator's spec; the trait of the requested name inside the emitted module must list exactly those methods in order, and the re-export after the module must carry exactly the requested visibility. 150k quick / 3M thorough cases.",
-    note="The expected list comes from the generator's own record of what it emitted, never from the macro; the import is observed at token level here (the compiled-client leg is planned under E2).",
+    note="The expected list comes from the generator's own record of what it emitted, never from the macro; the import is observed at token level here (a compiled parent-scope client leg runs after it).",
     design="§2 C08"),
  "C09": dict(
     technique="property-based testing: generated trait definitions, structural diff (syn) of the input trait against the same-named trait of the expansion, modulo the documented async rewrite",
@@ -108,21 +108,21 @@ CHECKS = {
     design="§2 C19"),
  "C20": dict(
     technique="property-based testing over histories: one generated corpus expanded under permutations, repetitions, threads and perturbed child processes; oracle = per-key equality of outputs",
-    engine="E1",
+    engine="E1+E2",
     text="A generated corpus (6k quick / 60k thorough distinct invocations) is expanded in baseline order, reversed, under 4 permutations, tripled/interleaved, from 4 threads and in >=6 fresh child processes with their own order, cleared/perturbed environment and working directory (plus every environment variable name found in the macro source, over a value matrix); every history must give the baseline's tokens for every key.",
     note="Cannot see non-determinism that needs a machine state none of the histories produces (a specific env var value, wall clock thresholds); children share the binary, so build-time non-determinism is out of scope.",
     design="§2 C20"),
  "C16": dict(
     technique="small-scope exhaustive enumeration plus property-based random lists of parameter patterns; structural oracle (syn) on the generated trait method and delegating method",
-    engine="E1",
+    engine="E1+E2",
     text="Every valid pattern list of length <=3 over an 18-symbol alphabet (the 12 symbols of the statement plus lifted/renamed collision shapes, 3-binding and 0-binding destructures) x {deps, no_deps} is enumerated completely; longer lists (up to 7) x fn names x sync/async are sampled (100k quick / 2M thorough). Oracle: one plain ident per parameter, types in order, names pairwise distinct and != fn name, required names kept, ambiguous patterns get generated names, and the delegating call forwards exactly those idents positionally.",
-    note="Exhaustive only for the stated small scope; the compile-and-run leg through rustc is planned under E2. Don't-care: destructured bindings starting with `_`.",
+    note="Exhaustive only for the stated small scope; a compile-and-run leg through rustc follows (all lists of length <=2 and a sample of length 3 in quick, all of length <=3 in thorough). Don't-care: destructured bindings starting with `_`.",
     design="§2 C16"),
  "C18": dict(
     technique="property-based testing with unique marker attributes: occurrence counting in the expansion, syn-level attribute-list comparison for mirrored trait methods and cfg gating",
-    engine="E1",
+    engine="E1+E2",
     text="Generated fn/mod/trait/impl inputs carrying unique marker attributes on items, members and parameters, and enabled/disabled cfg predicates; each marker must occur exactly once (nothing copied to generated traits/impls, parameter attributes stripped), trait-method attribute lists must reappear identically on the delegating methods, and a cfg-disabled member fn must leave no ungated generated method. 150k quick / 3M thorough.",
-    note="cfg predicates are not evaluated in E1: `disabled` is known from the generator (`cfg(any())`, `cfg(not(all()))`) and the oracle demands the same attribute on the generated methods; the compile leg is planned under E2.",
+    note="cfg predicates are not evaluated in E1: `disabled` is known from the generator (`cfg(any())`, `cfg(not(all()))`) and the oracle demands the same attribute on the generated methods; an E2 leg compiles and runs programs with cfg-disabled members in all shapes.",
     design="§2 C18"),
 }
 
